@@ -13,7 +13,12 @@ ASSUMPTIONS = [
     "afterwards the top holds exactly the leaf occurrences (still instances of their leaf cell), leaf instances are named by their "
     "slash-joined path, the nets of flattened cells sit in the top, what is not below the top is untouched, well-formed, no "
     "exception; the NAMES of moved nets are not decided (twice-built strings, DESIGN 9.5)",
-    "the work-list driver of flatten() WITH connections, _bring_to_top and naming are NOT executed symbolically (a whole-run attempt on a "
+    "naming lemma: flatten._bring_to_top(element, prefix, top) for an instance and for a cable whose NAME and path PREFIX are both "
+    "symbolic over string domains in which names start with, contain and repeat the prefix (quick: 6 names x 4 prefixes, thorough "
+    "9 x 7): the element is called prefix/name (its own name under the empty prefix) for every pair, sits in the top and no longer "
+    "in its cell, an EDIF identifier is refreshed iff present, nothing else changes, well-formed, no exception; names outside the "
+    "domains are outside the claim",
+    "the work-list driver of flatten() WITH connections is NOT executed symbolically (a whole-run attempt on a "
     "hierarchy-concrete fixture with symbolic connections did not terminate in z3 within 20 min and was dropped); 'leaf-level "
     "connectivity preserved' for whole designs is argued from the lemma in DESIGN.md, not decided",
 ]
@@ -24,5 +29,7 @@ def jobs(tier):
                  func="redo_connections_job", timeout=1500, args=dict(tier=tier)),
             dict(name="C09/_redo_connections{two-pin-port}", engine="E1/symheap", module="vf.e1.flatten_jobs",
                  func="redo_connections_bus_job", timeout=1500, args=dict(tier=tier)),
+            dict(name="C09/_bring_to_top", engine="E1/symheap", module="vf.e1.flatten_jobs",
+                 func="bring_to_top_job", timeout=1500, args=dict(tier=tier)),
             dict(name="C09/flatten-driver{pin-free}", engine="E1/symheap", module="vf.e1.flatten_jobs",
                  func="flatten_driver_job", timeout=3000, args=dict(tier=tier))]
